@@ -32,6 +32,11 @@ LENGTH_UNITS = {'angstrom': Fraction(1), 'nm': Fraction(10), 'pm': Fraction(1, 1
 COUNT_UNITS = {'count': Fraction(1), 'mega count': Fraction(10**6)}
 
 ROW_NAMES = ('u1', 'u2', 'u3', 'u4', 'irun', 'idet', 'ien', 'signal', 'error')
+ROW_TARGET_UNITS = {'u1': '1/angstrom', 'u2': '1/angstrom', 'u3': '1/angstrom', 'u4': 'meV',
+                    'irun': None, 'idet': None, 'ien': None, 'signal': 'count', 'error': 'count**2'}
+ERROR_UNITS = {'count**2': Fraction(1), '(mega count)**2': Fraction(10**12)}
+ROW_FAMILY = {'u1': MOMENTUM_UNITS, 'u2': MOMENTUM_UNITS, 'u3': MOMENTUM_UNITS, 'u4': ENERGY_UNITS,
+              'irun': None, 'idet': None, 'ien': None, 'signal': COUNT_UNITS, 'error': ERROR_UNITS}
 
 
 def f64bits(x: float) -> int:
@@ -335,6 +340,23 @@ def rand_f(rng, lo=1e-3, hi=1e3, signed=True) -> float:
     return -v if signed and rng.random() < 0.4 else v
 
 
+DTYPES = ('float64', 'float64', 'float32', 'int64', 'int32')
+
+
+def typed_value(rng, v: float, dt: str) -> float:
+    """the value `v` as it exists in dtype `dt` (exactly representable as a Python float);
+    integer dtypes get a whole number of moderate size, so that it is not whole in another unit"""
+    if dt.startswith('int'):
+        return float(rng.randint(-999, 999) if v < 0 else rng.randint(0, 999))
+    if dt == 'float32':
+        return float(np.float32(v))
+    return float(v)
+
+
+def typed_array(vals, dt: str):
+    return np.asarray(vals, dtype='float64').astype(dt)
+
+
 def gen_run(rng, i: int, nen: int, indirect_ok: bool) -> dict:
     eu = rng.choice(list(ENERGY_UNITS))
     run = {
@@ -348,7 +370,8 @@ def gen_run(rng, i: int, nen: int, indirect_ok: bool) -> dict:
     for a in ('psi', 'omega', 'dpsi', 'gl', 'gs'):
         unit = rng.choice(['rad', 'deg'])
         val = rng.choice([0.0, 90.0, 180.0, -45.0, 1.0]) if rng.random() < 0.25 else rng.uniform(-360, 360) * (1 if unit == 'deg' else math.pi / 180)
-        run[a] = [val, unit]
+        dt = rng.choice(DTYPES)
+        run[a] = [typed_value(rng, val, dt), unit, dt]
     if indirect_ok and rng.random() < 0.35:
         run['emode'] = 2
         if rng.random() < 0.7:
@@ -359,6 +382,10 @@ def gen_run(rng, i: int, nen: int, indirect_ok: bool) -> dict:
                 # per-detector energy transfer (2-d): written, but outside what the reader supports
                 run['en_2d'] = [ndet, nen, rng.random() < 0.5]  # transposed input layout?
                 run['en'] = [rand_f(rng, 1e-3, 500) for _ in range(ndet * nen)]
+    run['efix_dtype'] = rng.choice(DTYPES)
+    run['en_dtype'] = rng.choice(DTYPES)
+    run['efix'] = [typed_value(rng, v, run['efix_dtype']) for v in run['efix']]
+    run['en'] = [typed_value(rng, v, run['en_dtype']) for v in run['en']]
     return run
 
 
@@ -374,13 +401,59 @@ def gen_pix_op(rng, npix: int | None = None, nruns: int | None = None, unit_scal
             units[r] = rng.choice(list(MOMENTUM_UNITS))
         units['u4'] = rng.choice(list(ENERGY_UNITS))
         units['signal'] = rng.choice(list(COUNT_UNITS))
-    return {'k': 'P', 'npix': npix, 'seed': rng.getrandbits(32), 'units': units,
-            'kind': rng.choice(['uniform', 'log', 'midpoint', 'f32exact', 'int']),
-            'ndims': 4 if rng.random() < 0.8 else rng.randint(0, 4),
-            'runs': [gen_run(rng, i, nen, True) for i in range(nruns)]}
+    op = {'k': 'P', 'npix': npix, 'seed': rng.getrandbits(32), 'units': units,
+          'kind': rng.choice(['uniform', 'log', 'midpoint', 'f32exact', 'int']),
+          'ndims': 4 if rng.random() < 0.8 else rng.randint(0, 4),
+          'runs': [gen_run(rng, i, nen, True) for i in range(nruns)]}
+    # dtype of every coordinate and of the data, independent of the units
+    op['dtypes'] = {c: rng.choice(DTYPES) for c in ('u1', 'u2', 'u3', 'u4')}
+    op['dtypes']['data'] = rng.choice(['float64', 'float64', 'float32'])
+    for c in ('irun', 'idet', 'ien'):
+        op['dtypes'][c] = rng.choice(['int64', 'int32'])
+    # custom selection of rows (fewer / more than nine, reordered, repeated) and custom stored units
+    op['rows'] = op['row_units'] = None
+    if unit_scale and rng.random() < 0.35:
+        k = rng.choice([1, 2, 3, 5, 8, 9, 10, 11, 12])
+        if rng.random() < 0.3:
+            rows = list(ROW_NAMES)
+            rng.shuffle(rows)
+            rows = (rows * 2)[:k]
+        else:
+            rows = [rng.choice(ROW_NAMES) for _ in range(k)]
+        tgt = []
+        for r in rows:
+            fam = ROW_FAMILY[r]
+            if fam is None:
+                tgt.append(None)
+            elif rng.random() < 0.4:
+                tgt.append(rng.choice(list(fam)))
+            else:
+                tgt.append(ROW_TARGET_UNITS[r])
+        op['rows'], op['row_units'] = rows, tgt
+    # integer-typed rows: keep |value| x ratio inside int32, so that the conversion of the code under test cannot
+    # overflow (an overflowing integer conversion is not monotone, min/max would not commute with it)
+    for sp in pix_spec(op):
+        if sp['dtype'].startswith('int') and 1000 * sp['ratio'] >= 2**30:
+            op['units'][sp['name']] = ROW_TARGET_UNITS[sp['name']]
+            if op['rows']:
+                op['row_units'] = [ROW_TARGET_UNITS[r] if r == sp['name'] else t for r, t in zip(op['rows'], op['row_units'])]
+    return op
 
 
 def gen_dnd_op(rng) -> dict:
+    op = _gen_dnd_op(rng)
+    # dtype of every scalar / range, independent of its unit
+    for part, key in (('axes', 'img_scales'), ('axes', 'img_range'), ('axes', 'offset'), ('proj', 'offset')):
+        dts = [rng.choice(DTYPES) for _ in range(4)]
+        op[part][key + '_dtypes'] = dts
+        if key == 'img_range':
+            op[part][key] = [sorted(typed_value(rng, v, dt) for v in pair) for pair, dt in zip(op[part][key], dts)]
+        else:
+            op[part][key] = [typed_value(rng, v, dt) for v, dt in zip(op[part][key], dts)]
+    return op
+
+
+def _gen_dnd_op(rng) -> dict:
     mu = lambda: rng.choice(list(MOMENTUM_UNITS))  # noqa: E731
     eu = lambda: rng.choice(list(ENERGY_UNITS))  # noqa: E731
     units4 = lambda: [mu(), mu(), mu(), eu()]  # noqa: E731
@@ -541,12 +614,48 @@ def pixel_rows(op: dict) -> dict:
             v = np.abs(v)
         v = v + 0.0  # no negative zeros
         v[v == 0] = 0.0
+        ints = g.integers(0 if name in ('signal', 'error') else -1000, 1000, n)
+        dt = _row_dtype(op, name)
+        if dt.startswith('int'):
+            v = ints.astype(dt)
+        else:
+            v = v.astype(dt)
         rows[name] = v
     nruns = max(1, len(op['runs']))
-    rows['irun'] = g.integers(0, nruns, n).astype(np.int64)
-    rows['idet'] = g.integers(0, 100000, n).astype(np.int64)
-    rows['ien'] = g.integers(0, 1000, n).astype(np.int64)
+    rows['irun'] = g.integers(0, nruns, n).astype(_row_dtype(op, 'irun'))
+    rows['idet'] = g.integers(0, 100000, n).astype(_row_dtype(op, 'idet'))
+    rows['ien'] = g.integers(0, 1000, n).astype(_row_dtype(op, 'ien'))
     return rows
+
+
+def _row_dtype(op: dict, name: str) -> str:
+    d = op.get('dtypes') or {}
+    if name in ('signal', 'error'):
+        return d.get('data', 'float64')
+    if name in ('irun', 'idet', 'ien'):
+        return d.get(name, 'int64')
+    return d.get(name, 'float64')
+
+
+def _target_ratio(name: str, unit) -> Fraction:
+    """stored unit of a row -> canonical unit of its family"""
+    if unit is None:
+        return Fraction(1)
+    if name in ('u1', 'u2', 'u3'):
+        return MOMENTUM_UNITS[unit]
+    if name == 'u4':
+        return ENERGY_UNITS[unit]
+    if name == 'signal':
+        return COUNT_UNITS[unit]
+    return ERROR_UNITS[unit]
+
+
+def pix_spec(op: dict) -> list:
+    """the rows the pixel block must hold, in order: name, input unit, stored unit, exact ratio input->stored"""
+    names = op.get('rows') or list(ROW_NAMES)
+    units = op.get('row_units') or [ROW_TARGET_UNITS[r] for r in names]
+    return [{'name': r, 'unit_in': row_unit_in(op, r), 'target': t, 'dtype': _row_dtype(op, r),
+             'ratio': row_ratio(op, r) / _target_ratio(r, t)} for r, t in zip(names, units)]
 
 
 def row_unit_in(op: dict, name: str):
@@ -573,8 +682,7 @@ def row_ratio(op: dict, name: str) -> Fraction:
     return Fraction(1)
 
 
-ROW_TARGET_UNITS = {'u1': '1/angstrom', 'u2': '1/angstrom', 'u3': '1/angstrom', 'u4': 'meV',
-                    'irun': None, 'idet': None, 'ien': None, 'signal': 'count', 'error': 'count**2'}
+
 
 
 # ------------------------------------------------------------------------------------------
@@ -590,23 +698,29 @@ def make_experiment(run: dict):
     import scipp as sc
     from scippneutron.io.sqw import EnergyMode, SqwIXExperiment
 
+    edt, ndt = run.get('efix_dtype', 'float64'), run.get('en_dtype', 'float64')
     if run['efix_scalar']:
-        efix = sc.scalar(run['efix'][0], unit=run['efix_unit'])
+        efix = sc.scalar(typed_array(run['efix'], edt)[0], unit=run['efix_unit'], dtype=edt)
     else:
-        efix = sc.array(dims=['detector'], values=run['efix'], unit=run['efix_unit'])
+        efix = sc.array(dims=['detector'], values=typed_array(run['efix'], edt), unit=run['efix_unit'])
     if run['en_2d'] is None:
-        en = sc.array(dims=['energy_transfer'], values=run['en'], unit=run['en_unit'])
+        en = sc.array(dims=['energy_transfer'], values=typed_array(run['en'], ndt), unit=run['en_unit'])
     else:
         ndet, nen, transposed = run['en_2d']
-        a = np.asarray(run['en'], dtype='float64').reshape(ndet, nen)
+        a = typed_array(run['en'], ndt).reshape(ndet, nen)
         if transposed:
             en = sc.array(dims=['energy_transfer', 'detector'], values=np.ascontiguousarray(a.T), unit=run['en_unit'])
         else:
             en = sc.array(dims=['detector', 'energy_transfer'], values=a, unit=run['en_unit'])
-    ang = {a: sc.scalar(run[a][0], unit=run[a][1]) for a in ('psi', 'omega', 'dpsi', 'gl', 'gs')}
+    ang = {a: sc.scalar(typed_array([run[a][0]], _adt(run, a))[0], unit=run[a][1], dtype=_adt(run, a))
+           for a in ('psi', 'omega', 'dpsi', 'gl', 'gs')}
     return SqwIXExperiment(
         run_id=run['run_id'], efix=efix, emode=EnergyMode(run['emode']), en=en,
         u=sc.vector(run['u']), v=sc.vector(run['v']), filename=run['filename'], filepath=run['filepath'], **ang)
+
+
+def _adt(run: dict, a: str) -> str:
+    return run[a][2] if len(run[a]) > 2 else 'float64'
 
 
 def make_pixels(op: dict):
@@ -627,19 +741,28 @@ def make_dnd(op: dict):
     from scippneutron.io.sqw import SqwDndMetadata, SqwLineAxes, SqwLineProj
 
     a, p = op['axes'], op['proj']
+
+    def dts(d, key):
+        return d.get(key + '_dtypes') or ['float64'] * 4
+
+    def scalars(d, key):
+        return [sc.scalar(typed_array([v], dt)[0], unit=u, dtype=dt)
+                for v, u, dt in zip(d[key], d[key + '_units'], dts(d, key))]
+
     axes = SqwLineAxes(
         title=a['title'], label=list(a['label']),
-        img_scales=[sc.scalar(v, unit=u) for v, u in zip(a['img_scales'], a['img_scales_units'])],
-        img_range=[sc.array(dims=['range'], values=v, unit=u) for v, u in zip(a['img_range'], a['img_range_units'])],
+        img_scales=scalars(a, 'img_scales'),
+        img_range=[sc.array(dims=['range'], values=typed_array(v, dt), unit=u)
+                   for v, u, dt in zip(a['img_range'], a['img_range_units'], dts(a, 'img_range'))],
         n_bins_all_dims=sc.array(dims=['axis'], values=a['n_bins'], unit=None),
         single_bin_defines_iax=sc.array(dims=['axis'], values=a['single_bin']),
         dax=sc.array(dims=['axis'], values=a['dax'], unit=None),
-        offset=[sc.scalar(v, unit=u) for v, u in zip(a['offset'], a['offset_units'])],
+        offset=scalars(a, 'offset'),
         changes_aspect_ratio=a['changes_aspect_ratio'])
     proj = SqwLineProj(
         lattice_spacing=sc.vector(p['alatt'], unit=p['alatt_unit']),
         lattice_angle=sc.vector(p['angdeg'], unit=p['angdeg_unit']),
-        offset=[sc.scalar(v, unit=u) for v, u in zip(p['offset'], p['offset_units'])],
+        offset=scalars(p, 'offset'),
         title=p['title'], label=list(p['label']),
         u=sc.vector(p['u'], unit=p['u_unit']), v=sc.vector(p['v'], unit=p['v_unit']),
         w=None if p['w'] is None else sc.vector(p['w'], unit=p['w_unit']),
@@ -683,7 +806,11 @@ def build_real(case: dict, tmpdir: str | None):
     for op in case['ops']:
         k = op['k']
         if k == 'P':
-            b = b.add_pixel_data(make_pixels(op), experiments=[make_experiment(r) for r in op['runs']], n_dims=op['ndims'])
+            kw = {}
+            if op.get('rows'):
+                kw = {'rows': tuple(op['rows']), 'row_units': tuple(op['row_units'])}
+            b = b.add_pixel_data(make_pixels(op), experiments=[make_experiment(r) for r in op['runs']],
+                                 n_dims=op['ndims'], **kw)
         elif k == 'I':
             b = b.add_default_instrument(make_instrument(op))
         elif k == 'S':
@@ -725,11 +852,33 @@ def expected_order(case: dict) -> str:
 # ------------------------------------------------------------------------------------------
 # conversions done by scipp (inputs of the Lean encoder: numbers in the units the format stores)
 # ------------------------------------------------------------------------------------------
-def conv(vals, unit_in, unit_out):
+def conv(vals, unit_in, unit_out, dtype: str = 'float64'):
+    """what the writer's `x.to(unit=unit_out, dtype="float64")` gives for values held in `dtype`"""
     import scipp as sc
 
-    v = sc.array(dims=['x'], values=np.asarray(vals, dtype='float64'), unit=unit_in)
-    return [float(x) for x in sc.to_unit(v, unit_out).values]
+    v = sc.array(dims=['x'], values=typed_array(vals, dtype), unit=unit_in)
+    return [float(x) for x in v.to(unit=unit_out, dtype='float64').values]
+
+
+_PIX_CONV: dict = {}
+
+
+def pix_conversion(which: str) -> str:
+    """the conversion the writer in the tree under test applies to pixel rows ('pixels') and to their
+    min/max ('range'), as read from the source by the translator"""
+    if not _PIX_CONV:
+        from .translate import sqw as tr
+
+        _PIX_CONV.update(tr.pixel_conversions(os.environ.get('SCN_REPO', '/repo')))
+    return _PIX_CONV.get(which, 'to_unit')
+
+
+def _row_conv(var, target, which: str):
+    import scipp as sc
+
+    if pix_conversion(which) == 'to_float64':
+        return var.to(unit=target, dtype='float64')
+    return sc.to_unit(var, target)
 
 
 def _bits(vals) -> str:
@@ -755,20 +904,22 @@ def model_op_token(op: dict) -> str:
         a, p = op['axes'], op['proj']
         tgt = ['1/angstrom'] * 3 + ['meV']
 
-        def multi(vals, units):
-            return [conv([v], u, t)[0] for v, u, t in zip(vals, units, tgt)]
+        def multi(d, key):
+            dts = d.get(key + '_dtypes') or ['float64'] * 4
+            return [conv([v], u, t, dt)[0] for v, u, t, dt in zip(d[key], d[key + '_units'], tgt, dts)]
 
         rng_flat = []
-        for (lo, hi), u, t in zip(a['img_range'], a['img_range_units'], tgt):
-            rng_flat += conv([lo, hi], u, t)
+        for (lo, hi), u, t, dt in zip(a['img_range'], a['img_range_units'], tgt,
+                                      a.get('img_range_dtypes') or ['float64'] * 4):
+            rng_flat += conv([lo, hi], u, t, dt)
         axes = ';'.join([
-            _s(a['title']), ','.join(_s(x) for x in a['label']), _bits(multi(a['img_scales'], a['img_scales_units'])),
+            _s(a['title']), ','.join(_s(x) for x in a['label']), _bits(multi(a, 'img_scales')),
             _bits(rng_flat), ','.join(str(n) for n in a['n_bins']), ''.join('1' if b else '0' for b in a['single_bin']),
-            ','.join(str(d) for d in a['dax']), _bits(multi(a['offset'], a['offset_units'])),
+            ','.join(str(d) for d in a['dax']), _bits(multi(a, 'offset')),
             '1' if a['changes_aspect_ratio'] else '0'])
         proj = ';'.join([
             _bits(conv(p['alatt'], p['alatt_unit'], 'angstrom')), _bits(conv(p['angdeg'], p['angdeg_unit'], 'deg')),
-            _bits(multi(p['offset'], p['offset_units'])), _s(p['title']), ','.join(_s(x) for x in p['label']),
+            _bits(multi(p, 'offset')), _s(p['title']), ','.join(_s(x) for x in p['label']),
             _bits(conv(p['u'], p['u_unit'], '1/angstrom')), _bits(conv(p['v'], p['v_unit'], '1/angstrom')),
             '' if p['w'] is None else _bits(conv(p['w'], p['w_unit'], '1/angstrom')),
             '1' if p['non_orthogonal'] else '0'])
@@ -776,24 +927,25 @@ def model_op_token(op: dict) -> str:
     if k == 'P':
         rows = pixel_rows(op)
         toks = []
-        for name in ROW_NAMES:
-            v = rows[name]
-            uin = row_unit_in(op, name)
+        for sp in pix_spec(op):
+            # as the writer does it: `sc.to_unit(row, unit)` on the row in ITS dtype, then the float32 store
+            v = rows[sp['name']]
+            uin = sp['unit_in']
             empty = sc.array(dims=['x'], values=v[:0], unit=uin)
             # what min()/max() of an EMPTY row turn into (identity elements, converted)
-            lo = float(sc.to_unit(empty.min(), ROW_TARGET_UNITS[name]).value)
-            hi = float(sc.to_unit(empty.max(), ROW_TARGET_UNITS[name]).value)
-            arr = sc.to_unit(sc.array(dims=['x'], values=v, unit=uin), ROW_TARGET_UNITS[name]).values
+            lo = float(_row_conv(empty.min(), sp['target'], 'range').value)
+            hi = float(_row_conv(empty.max(), sp['target'], 'range').value)
+            arr = _row_conv(sc.array(dims=['x'], values=v, unit=uin), sp['target'], 'pixels').values
             toks.append(','.join(['%016x' % f64bits(lo), '%016x' % f64bits(hi)] + ['%016x' % f64bits(float(x)) for x in arr]))
         exps = []
         for r in op['runs']:
-            efix = conv(r['efix'], r['efix_unit'], 'meV')
-            en = conv(r['en'], r['en_unit'], 'meV')
+            efix = conv(r['efix'], r['efix_unit'], 'meV', r.get('efix_dtype', 'float64'))
+            en = conv(r['en'], r['en_unit'], 'meV', r.get('en_dtype', 'float64'))
             if r['en_2d'] is None:
                 en_rows, en_cols = 1, len(en)
             else:
                 en_rows, en_cols = r['en_2d'][0], r['en_2d'][1]
-            ang = {a: conv([r[a][0]], r[a][1], 'rad')[0] for a in ('psi', 'omega', 'dpsi', 'gl', 'gs')}
+            ang = {a: conv([r[a][0]], r[a][1], 'rad', _adt(r, a))[0] for a in ('psi', 'omega', 'dpsi', 'gl', 'gs')}
             exps.append(';'.join([
                 _s(r['filename']), _s(r['filepath']), str(r['run_id']), _bits(efix), str(r['emode']),
                 str(en_rows), str(en_cols), _bits(en), '%016x' % f64bits(ang['psi']), _bits(r['u']), _bits(r['v']),
@@ -915,6 +1067,12 @@ def reference_block_order(kinds: frozenset) -> list:
     return _reference_order_cache[kinds]
 
 
+def all_rows_integer(case: dict) -> bool:
+    """no float64 among the selected rows: numpy does not promote their min/max to float64"""
+    p = effective_ops(case).get('P')
+    return p is not None and np.result_type(*[np.dtype(sp['dtype']) for sp in pix_spec(p)]) != np.dtype('float64')
+
+
 def lenient_layout(data: bytes, o: str):
     """header/table walk that does not stop at the first inconsistency -> (info, problems)"""
     c = Cursor(data, o)
@@ -982,8 +1140,14 @@ def structure_violations(case: dict, data: bytes) -> list:
             out.append(('C12:extent-gap', f'block {i} {n} starts at {d["pos"]}, previous extent ended at {p}'))
             p = d['pos']
         end = p + d['size']
+        if n == ('pix', 'data_wrap') and p + 12 <= len(data):
+            nr_, np_ = int.from_bytes(data[p:p + 4], o), int.from_bytes(data[p + 4:p + 12], o)
+            if d['size'] != 12 + 4 * nr_ * np_:
+                out.append(('C12:pix-size-declared',
+                            f'pixel block of {nr_} rows x {np_} pixels is declared with {d["size"]} bytes, '
+                            f'its content needs {12 + 4 * nr_ * np_}'))
         if end > len(data):
-            if n == ('pix', 'data_wrap'):
+            if n == ('pix', 'data_wrap') and not any(k == 'C12:pix-size-declared' for k, _ in out):
                 out.append(('C12:pix-chunk-loop-truncates',
                             f'pixel block declares {d["size"]} bytes at {p} but the file ends at {len(data)}'))
             else:
@@ -992,7 +1156,12 @@ def structure_violations(case: dict, data: bytes) -> list:
             try:
                 decode_block(data, o, i, d['ty'], p, d['size'], keep_pix=False)
             except DecodeError as e:
-                out.append((f'C12:block-decode:{n[0]}/{n[1]}', f'block {i} {n} does not decode within its extent: {e}'))
+                if n == ('pix', 'metadata') and all_rows_integer(case):
+                    out.append(('C12:data-range-dtype',
+                                'no float64 row selected: data_range is written with the narrower / integer dtype of the rows under '
+                                f'the f64 tag, the pixel metadata block does not decode within its extent ({e})'))
+                else:
+                    out.append((f'C12:block-decode:{n[0]}/{n[1]}', f'block {i} {n} does not decode within its extent: {e}'))
         p = end
     if p < len(data):
         out.append(('C12:extent-end', f'last extent ends at {p} but the file has {len(data)} bytes'))
@@ -1132,6 +1301,10 @@ def _content_violations(case: dict, data: bytes, tmpdir: str | None) -> list:
         descs = info.get('descs') or []
         if e.kind == 'extent-short' and descs and descs[-1]['n1'] == b'data_wrap':
             return [('C13:pix-chunk-loop-truncates', 'pixel block shorter than declared: pixels are missing from the file')]
+        if e.kind == 'block-decode' and all_rows_integer(case) and e.index is not None and e.index < len(descs) \
+                and (descs[e.index]['n0'], descs[e.index]['n1']) == (b'pix', b'metadata'):
+            return [('C13:data-range-dtype', 'no float64 row selected: data_range is written with the dtype of '
+                                           'the rows under the f64 tag, the pixel metadata cannot be decoded')]
         return [('C13:undecodable', f'file does not decode: {e}')]
     eff = effective_ops(case)
     full, fpath, fname = path_strings(case, tmpdir)
@@ -1203,16 +1376,23 @@ def _pixel_violations(op: dict, blocks: dict, full: str) -> list:
     out = []
     n = op['npix']
     rows = pixel_rows(op)
+    spec = pix_spec(op)
+    nr = len(spec)
     pb = blocks.get(('pix', 'data_wrap'))
     if pb is None or pb[0] != 'P':
         return [('C13:pixel-count', 'no pixel block')]
     _, nrows, npix, arr = pb
-    if nrows != 9 or npix != n:
-        return [('C13:pixel-count', f'pixel block holds {nrows} rows x {npix} pixels, supplied 9 x {n}')]
-    stored = arr.reshape(n, 9) if n else arr.reshape(0, 9)
+    if nrows != nr or npix != n:
+        return [('C13:pixel-count', f'pixel block holds {nrows} rows x {npix} pixels, supplied {nr} x {n}')]
+    stored = arr.reshape(n, nr) if n else arr.reshape(0, nr)
     n_mid = 0
-    for i, name in enumerate(ROW_NAMES):
-        ratio = row_ratio(op, name)
+
+    def key_for(sp, default):
+        # integer-typed rows converted to another unit: a class of its own (conversion done in integers)
+        return 'C13:int-pixel-unit-conversion' if sp['dtype'].startswith('int') and sp['ratio'] != 1 else default
+
+    for i, sp in enumerate(spec):
+        name, ratio = sp['name'], sp['ratio']
         col = stored[:, i]
         src = rows[name]
         # fast path: the correctly rounded float32 of an exactly representable product
@@ -1226,9 +1406,9 @@ def _pixel_violations(op: dict, blocks: dict, full: str) -> list:
         for k in bad[:50]:
             verdict = f32_close_enough(int(col[k]), Fraction(float(src[k])) * ratio)
             if verdict == 'bad':
-                out.append(('C13:pixel-value',
-                            f'pixel {int(k)} row {name}: stored {bits_f32(int(col[k]))!r}, supplied {float(src[k])!r} '
-                            f'{row_unit_in(op, name)} (x {float(ratio)!r})'))
+                out.append((key_for(sp, 'C13:pixel-value'),
+                            f'pixel {int(k)} row {i} ({name}, {sp["dtype"]}): stored {bits_f32(int(col[k]))!r} {sp["target"]}, '
+                            f'supplied {float(src[k])!r} {sp["unit_in"]} (x {float(ratio)!r})'))
                 break
             if verdict == 'midpoint':
                 n_mid += 1
@@ -1236,7 +1416,7 @@ def _pixel_violations(op: dict, blocks: dict, full: str) -> list:
             # spot-check the fast path against exact arithmetic
             for k in (0, n // 2, n - 1):
                 if f32_close_enough(int(col[k]), Fraction(float(src[k])) * ratio) == 'bad':
-                    out.append(('C13:pixel-value', f'pixel {k} row {name}: stored {bits_f32(int(col[k]))!r}'))
+                    out.append((key_for(sp, 'C13:pixel-value'), f'pixel {k} row {i} ({name}): stored {bits_f32(int(col[k]))!r}'))
                     break
     # metadata
     pm = _single_struct(blocks.get(('pix', 'metadata')))
@@ -1248,16 +1428,20 @@ def _pixel_violations(op: dict, blocks: dict, full: str) -> list:
     _chk_f64_exact(out, 'C13:pix-metadata:npix', 'npix', pm.get('npix'), [float(n)], [1])
     dr = pm.get('data_range')
     vals = None if dr is None else as_f64s(dr)
-    if vals is None or list(dr[1]) != [2, 9] or len(vals) != 18:
-        out.append(('C13:data-range', f'data_range has shape {None if dr is None else dr[1]}, expected [2, 9]'))
+    if vals is None or list(dr[1]) != [2, nr] or len(vals) != 2 * nr:
+        out.append(('C13:data-range', f'data_range has shape {None if dr is None else dr[1]}, expected [2, {nr}]'))
     elif n:
-        for i, name in enumerate(ROW_NAMES):
-            ratio = row_ratio(op, name)
+        for i, sp in enumerate(spec):
+            name, ratio = sp['name'], sp['ratio']
             lo, hi = float(rows[name].min()), float(rows[name].max())
+            # a float32 row is converted in single precision: its range carries that precision
+            tol = Fraction(1, 2**22) if sp['dtype'] == 'float32' else Fraction(1, 2**50)
             for got, src, what in ((vals[2 * i], lo, 'minimum'), (vals[2 * i + 1], hi, 'maximum')):
-                ok = (got == src) if ratio == 1 else f64_close(got, Fraction(src) * ratio)
+                ok = (got == src) if ratio == 1 else f64_close(got, Fraction(src) * ratio, tol)
                 if not ok:
-                    out.append(('C13:data-range', f'row {name}: stored {what} {got!r}, pixels have {src!r} x {float(ratio)!r}'))
+                    narrow = np.result_type(*[np.dtype(x['dtype']) for x in spec]) != np.dtype('float64')
+                    out.append(('C13:data-range-dtype' if narrow else key_for(sp, 'C13:data-range'),
+                                f'row {i} ({name}, {sp["dtype"]}): stored {what} {got!r}, pixels have {src!r} x {float(ratio)!r}'))
                     break
     return out
 
@@ -1452,7 +1636,7 @@ def reader_content_violations(case: dict, data: bytes, target, tmpdir: str | Non
                     same_str('pix_metadata.full_filename', r.full_filename, g.get('full_filename'))
                     same_bits('pix_metadata.npix', [float(r.npix)], g.get('npix'))
                     same_bits('pix_metadata.data_range', r.data_range, g.get('data_range'))
-                    if tuple(r.data_range.shape) != (9, 2):
+                    if tuple(r.data_range.shape) != (len(pix_spec(eff['P'])), 2):
                         out.append(('C13:reader-value:pix_metadata.data_range', f'shape {r.data_range.shape}'))
                 elif name == ('pix', 'data_wrap'):
                     _, nrows, npix, arr = blk
@@ -1684,6 +1868,12 @@ def count_case(ctx, case: dict, size: int) -> None:
         ctx.count('chunk-vs-rows:' + ('<9' if ch < 9 else '=9' if ch == 9 else '>9'))
         ctx.count(f"runs:{len(eff['P']['runs'])}")
         ctx.count('values:' + eff['P']['kind'])
+        ctx.count(f"pix-rows:{len(pix_spec(eff['P']))}")
+        if eff['P'].get('row_units') and eff['P']['row_units'] != [ROW_TARGET_UNITS[r] for r in eff['P']['rows']]:
+            ctx.count('pix-rows:custom-stored-units')
+        for c, dt in (eff['P'].get('dtypes') or {}).items():
+            if c in ('u1', 'u4', 'data'):
+                ctx.count(f'dtype:{c}:{dt}')
         if any(r['emode'] == 2 for r in eff['P']['runs']):
             ctx.count('indirect-mode')
         if any(r['en_2d'] is not None for r in eff['P']['runs']):
@@ -1774,6 +1964,14 @@ def correspond_model(ctx, cases_data, tmpdir, mode: str) -> None:
             continue
         if model_bytes == data:
             ctx.count('lean:bytes-identical')
+        elif all_rows_integer(case) and pix_conversion('range') != 'to_float64':
+            # no float64 row selected and the tree under test stores min/max in the dtype of the rows: the model
+            # (data_range always float64) cannot express that; every such case is judged by the direct oracle
+            ctx.count('lean:data-range-not-float64:left-to-oracle')
+        elif not dp.startswith('ok '):
+            # the real file violates the container format (reported, with a key, by the direct oracle, which
+            # decodes every file); the model cannot express a malformed file, so there is nothing to compare
+            ctx.count('lean:real-file-undecodable:left-to-oracle')
         elif mode == 'structure':
             a, b = skeleton(dp), skeleton(decode_dump(model_bytes))
             if a != b:
